@@ -357,3 +357,29 @@ class SchedSuite(SyncSuite):
                 o["schedules"] = op["schedules"][:i] + op["schedules"][i + 1:]
                 out.append(o)
         return out
+
+
+class RaceSuite(SchedSuite):
+    """C08, last clause: the same transfers executed by a harness built with -race; any report of the Go race detector is a violation"""
+    name = "race"
+    n_cases = {"quick": 30, "thorough": 600, "search": 10}
+    K = {"quick": 4, "thorough": 8, "search": 3}
+    rule = ("the schedules of the sched suite executed by a harness built with `go build -race` (GORACE=halt_on_error): every report of the race "
+            "detector in fsutil or in the harness is a violation; non-trivial = distinct transfer with >= 3 entries")
+
+    def run_impl(self, vh, ops):
+        from .. import core
+        rvh = getattr(RaceSuite, "_vh", None)
+        if rvh is None or not __import__("os").path.exists(rvh):
+            rvh = core.build_harness(race=True)
+            RaceSuite._vh = rvh
+        return core.run_impl(rvh, ops, env={"GORACE": "halt_on_error=1 exitcode=66"})
+
+    def judge(self, op, impl, model):
+        if isinstance(impl, dict) and "crash" in impl:
+            msg = impl["crash"]
+            if "DATA RACE" in msg or impl.get("rc") == 66:
+                where = [l.strip() for l in msg.splitlines() if "fsutil" in l or "harness" in l][:4]
+                return Verdict(False, False, "the Go race detector reports a data race: %s" % "; ".join(where))
+            return Verdict(False, False, "process crashed: %s" % msg[-300:])
+        return super().judge(op, impl, model)
